@@ -403,29 +403,6 @@ def PmClean (proj : Project) (pm : St → Nat → St) (k : Nat) : Prop :=
 
 theorem markBad_false (s : St) : markBad s false = s := rfl
 
-theorem gpm_clean {proj : Project} {rank : List Nat} (wf : WFacts proj rank) {pm : St → Nat → St} {k : Nat}
-    (hpm : PmOk proj pm) (hcl : PmClean proj pm k) {s : St} {T : Path} (hI : PdInv proj s) (hb : s.bad = false)
-    (hk : cnt s ≤ k) : (getProcessedModule pm s T).1.bad = false := by
-  have hnc := lookupModule_nocrash wf hI T
-  unfold getProcessedModule
-  cases hl : lookupModule s T with
-  | mk r crash =>
-    rw [hl] at hnc; simp only at hnc; subst hnc
-    cases r with
-    | none => simpa [markBad_false] using hb
-    | some t =>
-      simp only [markBad_false]
-      obtain ⟨hlt, _⟩ := lookupModule_spec hI hl
-      by_cases hu : getPs s t = .unprocessed
-      · simp only [hu, if_true]
-        have hb1 := hcl s t hb hI hlt hu hk
-        have hdone := (hpm.2 s t hb1 hI hlt).2.2
-        have hne : (PState.processed == PState.unprocessed) = false := by decide
-        rw [hdone, hne, markBad_false]; exact hb1
-      · simp only [hu, if_false]
-        have : (getPs s t == PState.unprocessed) = false := by simpa using hu
-        simp [this, markBad_false, hb]
-
 /-- `pm` (one nesting level of `processModule`) is clean and leaves started objects alone, on states with at
 most `k` unprocessed modules -/
 def PmGood (proj : Project) (pm : St → Nat → St) (k : Nat) : Prop :=
@@ -435,31 +412,88 @@ def PmGood (proj : Project) (pm : St → Nat → St) (k : Nat) : Prop :=
 theorem PmGood.clean {proj : Project} {pm : St → Nat → St} {k : Nat} (h : PmGood proj pm k) : PmClean proj pm k :=
   fun s t hb hI ht hu hk => (h s t hb hI ht hu hk).1
 
+/-- a frame over `[]` with `none`: compose two of them -/
+theorem FrameX.trans0 {proj : Project} {a b c : St} (h1 : FrameX proj none [] a b) (hp : PsRel a b)
+    (h2 : FrameX proj none [] b c) : FrameX proj none [] a c := by
+  have := h1.trans hp h2
+  simpa using this
+
+theorem pmMany_good {proj : Project} {pm : St → Nat → St} {k : Nat} (hpm : PmOk proj pm) (hg : PmGood proj pm k) :
+    ∀ (l : List Nat) (s : St), (∀ m ∈ l, m < proj.length) → PdInv proj s → s.bad = false → cnt s ≤ k →
+      (pmMany pm l s).bad = false ∧ FrameX proj none [] s (pmMany pm l s)
+  | [], s, _, _, hb, _ => ⟨hb, FrameX.refl _ _ _ _⟩
+  | m :: r, s, hl, hI, hb, hk => by
+    simp only [pmMany, List.foldl_cons]
+    by_cases hu : getPs s m = .unprocessed
+    · simp only [hu, if_true]
+      have hm := hl m List.mem_cons_self
+      obtain ⟨hb1, hf1⟩ := hg s m hb hI hm hu hk
+      obtain ⟨hI1, he1, _⟩ := hpm.2 s m hb1 hI hm
+      have hk1 : cnt (pm s m) ≤ k := Nat.le_trans (cnt_ext hI hI1 he1) hk
+      obtain ⟨hb2, hf2⟩ := pmMany_good hpm hg r _ (fun x hx => hl x (List.mem_cons_of_mem _ hx)) hI1 hb1 hk1
+      exact ⟨hb2, hf1.trans0 he1.ps hf2⟩
+    · simp only [hu, if_false]
+      exact pmMany_good hpm hg r _ (fun x hx => hl x (List.mem_cons_of_mem _ hx)) hI hb hk
+
+theorem gpmAbove_good {proj : Project} {pm : St → Nat → St} {k : Nat} (hpm : PmOk proj pm) (hg : PmGood proj pm k)
+    {s : St} {t : Nat} (hI : PdInv proj s) (hb : s.bad = false) (hk : cnt s ≤ k) :
+    (gpmAbove pm s t).bad = false ∧ FrameX proj none [] s (gpmAbove pm s t) := by
+  unfold gpmAbove
+  split
+  · unfold processAbove
+    exact pmMany_good hpm hg _ _ (fun m hm => modulesAbove_lt hI _ _ m (List.mem_reverse.1 hm)) hI hb hk
+  · exact ⟨hb, FrameX.refl _ _ _ _⟩
+
+theorem gpmOne_good {proj : Project} {pm : St → Nat → St} {k : Nat} (hpm : PmOk proj pm) (hg : PmGood proj pm k)
+    {s : St} {t : Nat} (hI : PdInv proj s) (hlt : t < proj.length) (hb : s.bad = false) (hk : cnt s ≤ k) :
+    (gpmOne pm s t).bad = false ∧ FrameX proj none [] s (gpmOne pm s t) := by
+  unfold gpmOne
+  simp only
+  by_cases hu : getPs s t = .unprocessed
+  · simp only [hu, if_true]
+    obtain ⟨hbp, hfp⟩ := hg s t hb hI hlt hu hk
+    have hdone := (hpm.2 s t hbp hI hlt).2.2
+    have hne : (PState.processed == PState.unprocessed) = false := by decide
+    rw [hdone, hne, markBad_false]; exact ⟨hbp, hfp⟩
+  · simp only [hu, if_false]
+    have : (getPs s t == PState.unprocessed) = false := by simpa using hu
+    rw [this, markBad_false]; exact ⟨hb, FrameX.refl _ _ _ _⟩
+
 theorem gpm_good {proj : Project} {rank : List Nat} (wf : WFacts proj rank) {pm : St → Nat → St} {k : Nat}
     (hpm : PmOk proj pm) (hg : PmGood proj pm k) {s : St} {T : Path} (hI : PdInv proj s) (hb : s.bad = false)
     (hk : cnt s ≤ k) :
     (getProcessedModule pm s T).1.bad = false ∧ FrameX proj none [] s (getProcessedModule pm s T).1 := by
-  have hb1 := gpm_clean (T := T) wf hpm hg.clean hI hb hk
-  refine ⟨hb1, ?_⟩
-  unfold getProcessedModule at hb1 ⊢
+  unfold getProcessedModule
   have hnc := lookupModule_nocrash wf hI T
   cases hl : lookupModule s T with
   | mk r crash =>
-    rw [hl] at hnc hb1; simp only at hnc; subst hnc
+    rw [hl] at hnc; simp only at hnc; subst hnc
     cases r with
-    | none => simp only [markBad_false]; exact FrameX.refl _ _ _ _
+    | none => simp only [markBad_false]; exact ⟨hb, FrameX.refl _ _ _ _⟩
     | some t =>
-      simp only [markBad_false] at hb1 ⊢
+      simp only [markBad_false]
       obtain ⟨hlt, _⟩ := lookupModule_spec hI hl
-      by_cases hu : getPs s t = .unprocessed
-      · simp only [hu, if_true] at hb1 ⊢
-        obtain ⟨hbp, hfp⟩ := hg s t hb hI hlt hu hk
-        have hdone := (hpm.2 s t hbp hI hlt).2.2
-        have hne : (PState.processed == PState.unprocessed) = false := by decide
-        rw [hdone, hne, markBad_false]; exact hfp
-      · simp only [hu, if_false]
-        have : (getPs s t == PState.unprocessed) = false := by simpa using hu
-        rw [this, markBad_false]; exact FrameX.refl _ _ _ _
+      obtain ⟨hbA, hfA⟩ := gpmAbove_good (t := t) hpm hg hI hb hk
+      obtain ⟨hIA, heA⟩ := gpmAbove_ok hpm hI hbA
+      have hkA : cnt (gpmAbove pm s t) ≤ k := Nat.le_trans (cnt_ext hI hIA heA) hk
+      obtain ⟨hb1, hf1⟩ := gpmOne_good hpm hg hIA hlt hbA hkA
+      exact ⟨hb1, hfA.trans0 heA.ps hf1⟩
+
+theorem importProcess_good {proj : Project} {rank : List Nat} (wf : WFacts proj rank) {pm : St → Nat → St} {k : Nat}
+    (hpm : PmOk proj pm) (hg : PmGood proj pm k) {T : Path} {s : St} (hI : PdInv proj s) (hb : s.bad = false)
+    (hk : cnt s ≤ k) :
+    (importProcess pm T s).bad = false ∧ FrameX proj none [] s (importProcess pm T s) := by
+  unfold importProcess
+  generalize prefixesOf T = l
+  induction l generalizing s with
+  | nil => exact ⟨hb, FrameX.refl _ _ _ _⟩
+  | cons p r ih =>
+    simp only [List.foldl_cons]
+    obtain ⟨hb1, hf1⟩ := gpm_good (T := p) wf hpm hg hI hb hk
+    obtain ⟨hI1, he1, _⟩ := gpm_ok hpm hI hb1
+    have hk1 : cnt (getProcessedModule pm s p).1 ≤ k := Nat.le_trans (cnt_ext hI hI1 he1) hk
+    obtain ⟨hb2, hf2⟩ := ih hI1 hb1 hk1
+    exact ⟨hb2, hf1.trans0 he1.ps hf2⟩
 
 /-- a statement's outcome for the clean-run proof -/
 structure StepOk (proj : Project) (ctx : Nat) (names : List Name) (s s' : St) : Prop where
@@ -752,15 +786,22 @@ theorem visitStmt_step {proj : Project} {rank : List Nat} (wf : WFacts proj rank
       st ∈ full → s.bad = false → cnt s ≤ k →
       (∀ o, s.reg.objs[ctx]? = some o → ∀ n, st.defName = some n → dget o.contents n = none) →
       StepOk proj ctx st.defName.toList s (visitStmt pm mod ctx st s)
-  | .importMod t a, ctx, s, S, full, hI, hc, hst, hb, _, _ => by
+  | .importMod t a, ctx, s, S, full, hI, hc, hst, hb, hk, _ => by
     simp only [visitStmt, Stmt.defName, Option.toList]
-    unfold visitImport
-    cases a with
-    | some x => exact ⟨by rw [setAlias_bad]; exact hb, setAlias_frame proj _ _ s ctx x t⟩
-    | none =>
-      cases t with
-      | nil => exact ⟨hb, FrameX.refl _ _ _ _⟩
-      | cons h r => exact ⟨by rw [setAlias_bad]; exact hb, setAlias_frame proj _ _ s ctx h [h]⟩
+    obtain ⟨hb0, hf0⟩ := importProcess_good (T := t) wf hpm hg hI hb hk
+    obtain ⟨_, he0⟩ := importProcess_ok hpm hI hb0
+    have hstep : StepOk proj ctx [] (importProcess pm t s) (visitImport ctx t a (importProcess pm t s)) := by
+      generalize importProcess pm t s = s0 at hb0
+      unfold visitImport
+      cases a with
+      | some x => exact ⟨by rw [setAlias_bad]; exact hb0, setAlias_frame proj _ _ s0 ctx x t⟩
+      | none =>
+        cases t with
+        | nil => exact ⟨hb0, FrameX.refl _ _ _ _⟩
+        | cons h r => exact ⟨by rw [setAlias_bad]; exact hb0, setAlias_frame proj _ _ s0 ctx h [h]⟩
+    exact ⟨hstep.clean, by
+      have := (hf0.weaken (ctx := some ctx) (l := [])).trans he0.ps hstep.frame
+      simpa using this⟩
   | .importFrom lvl M n a, ctx, s, S, full, hI, hc, hst, hb, hk, _ => by
     simp only [visitStmt, Stmt.defName, Option.toList]
     exact visitImportFrom_step wf nr hpm hg hI hc hst hb hk
